@@ -8,8 +8,8 @@ package checks
 // Namespace: three fixed directories (the root R and D0, D1 inside it),
 // in each of them the file names a, b, c and the directory names x, y;
 // two shared regular files (by handle) for data operations.
-// Known findings kept out by construction: READDIRPLUS (KF1) and moving a
-// directory to another directory (KF2/KF3).
+// Known findings kept out by construction: READDIRPLUS of directories other than the
+// root (KF1) and moving a directory into its own subtree (KF3; impossible here).
 
 import (
 	"bytes"
@@ -623,8 +623,12 @@ func genCOp(t *rapid.T, cfg cGenCfg, tag *uint32) cOp {
 		o.Name = pick(t, cDirNames, "dname")
 	case "rename":
 		if cfg.DirRename && rapid.IntRange(0, 4).Draw(t, "dirrename") == 0 {
-			// a directory stays in its parent (moving it elsewhere is a known finding)
+			// a directory is renamed in its parent or moved to another of the three directories (never into itself:
+			// the programs create nothing inside x and y)
 			o.Name, o.Name2, o.Dir2 = pick(t, cDirNames, "dfrom"), pick(t, cDirNames, "dto"), o.Dir
+			if rapid.Bool().Draw(t, "dirmove") {
+				o.Dir2 = rapid.IntRange(0, 2).Draw(t, "dir2")
+			}
 		} else {
 			o.Name, o.Name2, o.Dir2 = pick(t, cFileNames, "from"), pick(t, cFileNames, "to"), rapid.IntRange(0, 2).Draw(t, "dir2")
 		}
